@@ -54,6 +54,7 @@ def interpret_resolver(p):
         raise AnalysisError("anchor=get_paths signature changed (needs connection, path)")
     CONN, PATH = params[-2], params[-1]
     returns, notes = [], []
+    call_stack = []
 
     def ev(e, env):
         if isinstance(e, ast.Name):
@@ -90,6 +91,31 @@ def interpret_resolver(p):
         if isinstance(e, ast.Call):
             fn = e.func
             d = dotted(fn) or ""
+            helper = None
+            if isinstance(fn, ast.Attribute) and isinstance(fn.value, ast.Name) and fn.value.id in ("self", "cls", "Server") and fn.attr in p.methods("Server") and fn.attr != f.name:
+                helper = p.methods("Server")[fn.attr]
+            if helper is not None and len(call_stack) < 3:
+                params_h = [a.arg for a in helper.args.args]
+                is_static = any(last_attr(dd) == "staticmethod" for dd in helper.decorator_list)
+                if not is_static and params_h and params_h[0] in ("self", "cls"):
+                    params_h = params_h[1:]
+                henv = {pn: ev(a, env) for pn, a in zip(params_h, e.args)}
+                for k in e.keywords:
+                    if k.arg in params_h:
+                        henv[k.arg] = ev(k.value, env)
+                local = []
+                call_stack.append(helper)
+                try:
+                    run(helper.body, henv, local)
+                finally:
+                    call_stack.pop()
+                vals = [v[0][0] for v in local if len(v[0]) == 1]
+                if vals and len(vals) == len(local):
+                    r = vals[0]
+                    for v in vals[1:]:
+                        r = join(r, v)
+                    return r
+                return TOP
             if d.endswith("PurePosixPath") and e.args:
                 a = e.args[0]
                 if isinstance(a, ast.Constant) and a.value == "/":
@@ -173,7 +199,8 @@ def interpret_resolver(p):
         notes.append(("inconclusive", s, f"statement outside the path domain's vocabulary: {src(s)[:60]}"))
         return None
 
-    def run(stmts, env):
+    def run(stmts, env, sink=None):
+        sink = returns if sink is None else sink
         for s in stmts:
             if env is None:
                 return None
@@ -193,8 +220,8 @@ def interpret_resolver(p):
                 env[s.target.id] = div(env.get(s.target.id, TOP), ev(s.value, env))
                 env.pop("#g:" + s.target.id, None)
             elif isinstance(s, ast.If):
-                e1 = run(s.body, refine(s.test, env, True))
-                e2 = run(s.orelse, refine(s.test, env, False))
+                e1 = run(s.body, refine(s.test, env, True), sink)
+                e2 = run(s.orelse, refine(s.test, env, False), sink)
                 env = join_env(e1, e2)
                 t, neg = s.test, False
                 if isinstance(t, ast.UnaryOp) and isinstance(t.op, ast.Not):
@@ -212,14 +239,14 @@ def interpret_resolver(p):
                 for _ in range(12):
                     b = dict(head)
                     b[s.target.id] = elem
-                    new = join_env(head, run(s.body, b))
+                    new = join_env(head, run(s.body, b, sink))
                     if new == head:
                         break
                     head = new
                 env = head
             elif isinstance(s, ast.Return):
                 elts = s.value.elts if isinstance(s.value, ast.Tuple) else [s.value]
-                returns.append(([ev(x, env) for x in elts], [isinstance(x, ast.Name) and ("#g:" + x.id) in env for x in elts], s))
+                sink.append(([ev(x, env) for x in elts], [isinstance(x, ast.Name) and ("#g:" + x.id) in env for x in elts], s))
                 return None
             elif isinstance(s, (ast.Pass,)):
                 continue
@@ -331,6 +358,15 @@ class PathProv:
             return "OTHER:" + src(expr)
         if isinstance(expr, ast.Await):
             return self.label(expr.value, fn, depth)
+        if isinstance(expr, ast.Call) and isinstance(expr.func, ast.Attribute) and isinstance(expr.func.value, ast.Name) and expr.func.value.id in ("self", "cls", "Server") \
+                and expr.func.attr in self.methods and expr.func.attr != "get_paths":
+            # a helper's result: the meet of the labels of what it returns (evaluated in the helper)
+            h = self.methods[expr.func.attr]
+            rets = [r.value for r in walk_no_nested(h) if isinstance(r, ast.Return) and r.value is not None]
+            labels = {self.label(r, h, depth + 1) for r in rets}
+            if len(labels) == 1:
+                return labels.pop()
+            return "MIXED:" + ",".join(sorted(labels)) if labels else "OTHER:" + src(expr)[:40]
         return "OTHER:" + src(expr)[:40]
 
     def is_resolver_call(self, node, fn):
@@ -367,10 +403,11 @@ class PathProv:
             if idx is None:
                 return "OTHER:param"
             labels = set()
+            is_static = any(last_attr(dd) == "staticmethod" for dd in fn.decorator_list)
             for m in list(self.methods.values()):
                 for c in ast.walk(m):
-                    if isinstance(c, ast.Call) and isinstance(c.func, ast.Attribute) and c.func.attr == fn.name and isinstance(c.func.value, ast.Name) and c.func.value.id in ("self", "cls"):
-                        pos = idx - 1
+                    if isinstance(c, ast.Call) and isinstance(c.func, ast.Attribute) and c.func.attr == fn.name and isinstance(c.func.value, ast.Name) and c.func.value.id in ("self", "cls", "Server"):
+                        pos = idx if is_static else idx - 1
                         if 0 <= pos < len(c.args):
                             labels.add(self.label(c.args[pos], p.enclosing_function(c) or m, depth))
                         else:
